@@ -112,6 +112,7 @@ Section Checker.
         | MFold =>
             one (fun s _ =>
               if Nat.eqb (sa s) 0 && Nat.eqb (so s) 0 then Some e
+              else if Nat.eqb (sa s) 0 then Some (handle_ao 0 (so s) e)
               else if sa s <=? so s then Some (handle_ao (sa s) (so s + 1 - sa s) e)
               else Some (handle_sig s e))
         | MTry | MPattern => Some (handle_sig (fst (try_sig sigs)) e)
